@@ -151,6 +151,11 @@ func genC09(r *core.Rand, p *core.Plan) {
 	if r.Chance(1, 2) {
 		p.Cfg["target_commit_window"] = 1
 	}
+	if r.Chance(1, 4) {
+		// mutex releases are scheduling points too (code that picks
+		// something under a lock and uses it after releasing it)
+		p.Cfg["yield_after_unlock"] = 1
+	}
 	ntasks := r.Range(2, 4)
 	sections := r.Range(1, 3)
 	if p.Cfg["thorough"] == 1 {
@@ -361,6 +366,7 @@ func (sim) Execute(env *core.Env, p *core.Plan) {
 	if p.C("target_commit_window", 0) == 1 {
 		cfg.TargetSites = []string{"db:commit.callbacks"}
 	}
+	cfg.YieldAfterUnlock = p.C("yield_after_unlock", 0) == 1
 	if env.Verbose && os.Getenv("VERIF_WALLET_LOG") != "" {
 		l := btclog.NewBackend(os.Stdout).Logger("WLLT")
 		l.SetLevel(btclog.LevelDebug)
